@@ -172,7 +172,11 @@ func run(sc scenario, choose vs.Chooser, traceOn bool) (*observation, *vs.Sched,
 		at := map[string]int{"t0": 0, "t1": 1, "t3": 3}
 		if d, ok := at[sc.Cancel]; ok {
 			vs.GoNamed("canceller", func() {
-				vs.Sleep(time.Duration(d) * unit)
+				if d > 0 {
+					// (virtual time only passes when every thread waits: a cancellation "at t=0" must be able to fall between any
+					// two steps of NewConn, so it is not put behind a timer)
+					vs.Sleep(time.Duration(d) * unit)
+				}
 				ob.cancelAt, ob.cancelled = vs.Elapsed(), true
 				cancel()
 			})
